@@ -971,14 +971,21 @@ func callBuiltin(caller *frame, callpos token.Pos, fn *ssa.Builtin, args []value
 			return append(arg0, strElems(args[1])...)
 		}
 		// append([]T, ...[]T) []T
-		return append(args[0].([]value), args[1].([]value)...)
+		// (aggregate elements are copied: each slice slot owns its struct/array storage)
+		return append(args[0].([]value), copyVals(args[1].([]value))...)
 
 	case "copy": // copy([]T, []T) int or copy([]byte, string) int
 		src := args[1]
 		if isStr(src) {
 			src = strElems(src)
 		}
-		return copy(args[0].([]value), src.([]value))
+		srcv := src.([]value)
+		dstv := args[0].([]value)
+		n := len(srcv)
+		if len(dstv) < n {
+			n = len(dstv)
+		}
+		return copy(dstv, copyVals(srcv[:n]))
 
 	case "close": // close(chan T)
 		close(args[0].(chan value))
@@ -1518,4 +1525,45 @@ func fandbits[F floaty](x, y F) F {
 		*(*uint64)(unsafe.Pointer(&x)) &= *(*uint64)(unsafe.Pointer(&y))
 	}
 	return x
+}
+
+// copyVal copies aggregate (struct/array) values so that two memory locations never share the
+// storage of one aggregate.
+func copyVal(v value) value {
+	switch x := v.(type) {
+	case structure:
+		c := make(structure, len(x))
+		for i := range x {
+			c[i] = copyVal(x[i])
+		}
+		return c
+	case array:
+		c := make(array, len(x))
+		for i := range x {
+			c[i] = copyVal(x[i])
+		}
+		return c
+	}
+	return v
+}
+
+func copyVals(xs []value) []value {
+	needs := false
+	for _, x := range xs {
+		switch x.(type) {
+		case structure, array:
+			needs = true
+		}
+		if needs {
+			break
+		}
+	}
+	if !needs {
+		return xs
+	}
+	out := make([]value, len(xs))
+	for i, x := range xs {
+		out[i] = copyVal(x)
+	}
+	return out
 }
